@@ -257,7 +257,8 @@ class Quantity:
         for unitid1,exp1 in self.baseunits.baseunits.items():
             # find base units
             base1 = get_unit_base(unitid1)
-            dim1 = str(base1.dimensions.value(dtype=tuple))
+            # (the whole dimension vector: litre and metre are both 'm', but only units of the very same dimension merge)
+            dim1 = str(base1.dimensions.value(dtype=list))
             if dim1 in baseunits:
                 # exists: convert units
                 base0 = get_unit_base(baseunits[dim1][0])
